@@ -20,7 +20,9 @@ def run(rep):
     fnd = Findings()
     res1, tab = dtlib.run_dt1(rep, rep.tier)
     dtchecks.one_dim_replay(rep, fnd, tab, "C11", kinds=("colifilt",))
-    small = {} if rep.tier != "quick" else dict(HWCodes=dtchecks.models.code(dtchecks.models.sq(2, 7) | {(10, 4), (4, 13), (16, 6)}))
+    # every absence mask multiplies the replays (2^J masks x absent lowpass x 3 spellings): keep the size grid moderate
+    small = dict(HWCodes=dtchecks.models.code(dtchecks.models.sq(2, 11) | {(16, 6), (6, 24), (20, 20), (13, 32)})) if rep.tier != "quick" else \
+        dict(HWCodes=dtchecks.models.code(dtchecks.models.sq(2, 7) | {(10, 4), (4, 13), (16, 6)}))
     res2 = dtchecks.run_dt2(rep, rep.tier, ["C2QOK", "BandWiringOK", "InvFullOK", "InvAbsentOK"], {"inv"}, **small)
     dtchecks.inverse_replay(rep, fnd, tab, res2.records, "C11")
     dtchecks.numeric_inverse(rep, fnd, "C11", rep.tier)
